@@ -117,7 +117,9 @@ class Tensor:
                     )
             elif isinstance(s, Tensor):
                 if s.is_scalar:
-                    scalar_indices.append([s, s + 1, axis_, 1])
+                    # The element after the last one (index -1) is the end of the axis, not 0.
+                    end = s + 1 if int(s.value) != -1 else shape[axis_]
+                    scalar_indices.append([s, end, axis_, 1])
                     to_squeeze.append(axis_)
                 else:
                     non_scalar_indices.append((axis_, s))
